@@ -16,10 +16,15 @@ RULE = ("a case is a grand composite curve (T strictly descending, H_net >= 0) o
         "thorough tier: EVERY curve of <= 7 rows over levels {0..4}; a case is non-trivial when at least one row is "
         "inserted or flattened; distinct = distinct (T, H_net)")
 ASSUMPTIONS = ["IEEE rounding of the implementation versus exact rationals is not proved: columns are compared to 1e-9 relative",
-               "inputs are Robust (no two enthalpy levels, no level and zero, no crossing temperature and row within tol "
-               "unless equal; H_net >= 0); other inputs are only compared model-vs-implementation, or skipped as fragile "
-               "when the model at tol(1 +- 1e-3) disagrees with itself",
-               "numpy views returned by ProblemTable.col alias the table (the sweep writes H_net_np through them)"]
+               "theorems hold for Robust inputs with a pinch (robust_b, has_pinch in coq/model/Pockets.v: T falling by > tol, every "
+               "H_net level 0 or > tol, no two levels within tol unless equal, no crossing of a row level within tol of an interval "
+               "end); Robust cases are judged by the property predicate and by model agreement, non-Robust ones by model agreement "
+               "only; a case is skipped as fragile when the model evaluated at tol(1-1e-3), tol, tol(1+1e-3) is not identical",
+               "numpy views returned by ProblemTable.col alias the table (the sweep writes H_net_np through them)",
+               "ProblemTable.insert_temperature_interval is modelled for ONE temperature and the columns T, H_net, H_net_np "
+               "(what the sweep uses); its general behaviour is property C08"]
+TRUSTED = ["hand-written model coq/model/Pockets.v (index model gcc_np, profiles) validated by the correspondence suites only",
+           "the zipper form gcc_np_z is NOT trusted: theorem C07_code_sweep_is_zipper_sweep proves gcc_np = gcc_np_z on Robust inputs"]
 HDR = ("From OP Require Import gen.Consts model.Base model.Pockets.\nRequire Import Coq.QArith.QArith.\n"
        "Local Open Scope Q_scope.")
 TOL = 1e-6
@@ -333,10 +338,10 @@ def model_dump(ctx, c):
 
 def run(ctx):
     rng = ctx.rng
-    n = ctx.budget(1400, 40000)
+    n = ctx.budget(900, 12000)
     run_suite(ctx, "shape", CORPUS + [gen_shape(rng) for _ in range(n)])
-    run_suite(ctx, "derived", [gen_derived(rng) for _ in range(ctx.budget(250, 6000))])
-    nt = [gen_near_tol(rng) for _ in range(ctx.budget(350, 8000))]
+    run_suite(ctx, "derived", [gen_derived(rng) for _ in range(ctx.budget(160, 2000))])
+    nt = [gen_near_tol(rng) for _ in range(ctx.budget(260, 3000))]
     frag, _ = run_suite(ctx, "near_tol", nt, expect_robust=False)
     if frag == 0:
         ctx.break_("correspondence:near_tol", "no near-tolerance case was classified fragile: the fragile verdict is dead")
